@@ -120,7 +120,7 @@ Theorem census_unchanged :
   gen_census = committed_census /\
   forallb (fun f => existsb (fun r : census_row =>
                                let '(file, fn, arms, _) := r in
-                               (String.eqb file (fst f) && String.eqb fn (snd f) && (0 <? arms))%bool) gen_census)
+                               (String.eqb file (fst f) && String.eqb fn (snd f) && arms)%bool) gen_census)
           entry_points = true.
 Proof. exact census_unchanged_proof. Qed.
 
